@@ -131,3 +131,16 @@ Proof.
   destruct (explode_concat (S (length (c :: t))) (c :: t) ltac:(lia)) as (ps & Hp & Hc & Hall).
   rewrite Hp. cbn [bind]. exists ps. auto.
 Qed.
+
+Theorem lines_all : lines [] = Ok Nil /\ forall s : list Z, s <> [] ->
+  exists ls, lines s = Ok (Strs ls) /\ ls <> [] /\ join [10] ls = trim_suffix s [10] /\
+    Forall (fun l => ~ In 10 l) ls.
+Proof. split; [exact lines_empty | exact lines_join]. Qed.
+
+Theorem split_all : (forall sep, split [] sep = Ok Nil) /\
+  (forall s sep : list Z, s <> [] -> sep <> [] ->
+     exists ps, split s sep = Ok (Strs ps) /\ ps <> [] /\ join sep ps = s /\
+       (forall c, sep = [c] -> Forall (fun p => ~ In c p) ps)) /\
+  (forall s : list Z, s <> [] ->
+     exists ps, split s [] = Ok (Strs ps) /\ concat ps = s /\ Forall (fun p => (1 <= length p <= 4)%nat) ps).
+Proof. split; [exact split_empty | split; [exact split_join | exact split_chars]]. Qed.
